@@ -1385,10 +1385,12 @@ class BinBytes(SimpleCorr):
         out = []
         for l in orc:
             t = l.split(" ")
-            if len(t) > 2 and t[2] == "abort-alloc":
+            if len(t) > 2 and t[2] in ("abort-alloc", "hang"):
                 mo = model.get(t[0], [])
                 if mo and mo[-1] == "BIGALLOC":
-                    t[2] = "abort-alloc-count-field"
+                    # same cause seen through another memory policy: the request is granted lazily and the worker spends
+                    # its time (or is killed) filling it
+                    t[2] = "abort-alloc-count-field" if t[2] == "abort-alloc" else "hang-alloc-count-field"
                     l = " ".join(t)
             out.append(l)
         return impl, model, out, st
